@@ -282,4 +282,7 @@ def p_arglist_def(p):
 
 
 def p_error(p):
+    if p is None:
+        raise ParserError('Syntax error: unexpected end of input')
+
     raise ParserError(f'Syntax error: {p.value} at line {p.lexer.lineno}')
